@@ -17,8 +17,9 @@ from casecheck import Spec
 
 FAULTS = {"refused": "FRefused", "reset": "FReset", "e500": "F500", "e503": "F503",
           "malformed": "FMalformed", "truncated": "FTruncated", "slow": "FSlow",
-          "stallbody": "FSlow"}   # headers sent, body stalled: costs the client's overall timeout, like an answer that never starts
-DOCS = {"doc1": "D1", "doc2": "D2", "doc3": "D3", "partial": "DP", "empty": "DE"}
+          "stallbody": "FSlow",
+          "typedwrong": "FMalformed"}  # a 200 answer whose JSON does not decode into the metadata structure   # headers sent, body stalled: costs the client's overall timeout, like an answer that never starts
+DOCS = {"doc1": "D1", "doc2": "D2", "doc3": "D3", "doc4": "D4", "partial": "DP", "empty": "DE"}
 PATHS = {"gated": "PGated", "excluded": "PExcluded", "callback": "PCallback"}
 BUDGET = 5
 
@@ -27,6 +28,7 @@ Open Scope Z_scope.
 Definition D1 := mkDoc 11 12 13 14 15 16.
 Definition D2 := mkDoc 21 22 23 24 25 26.
 Definition D3 := mkDoc 31 32 33 34 35 36.
+Definition D4 := mkDoc 41 42 43 44 0 0.
 Definition DP := mkDoc 91 0 0 94 0 0.
 Definition DE := mkDoc 0 0 0 0 0 0.
 """
